@@ -151,6 +151,65 @@ func hangObligations(p *load.Prog, r *oblig.Run, rule string, g *cg.Graph, entri
 				o.OK("at least one argument differs from the function's own parameter")
 			}
 		}
+		// an Error()/String() method that hands its own receiver to a fmt function: fmt calls that very method to print
+		// the value, which formats the receiver again - a recursion without end (go vet's printf check; the suite runs
+		// with -vet=off)
+		if (fn.Name() == "Error" || fn.Name() == "String") && fn.Signature.Recv() != nil && len(fn.Params) == 1 {
+			nFmt := 0
+			for _, c := range su.Calls(fn) {
+				cal := c.Common().StaticCallee()
+				if cal == nil || cal.Pkg == nil || cal.Pkg.Pkg.Path() != "fmt" {
+					continue
+				}
+				// the verbs of a constant format: only %v, %s and %q (without #) print through Error()/String()
+				var verbs []string
+				hasFormat := strings.HasSuffix(cal.Name(), "f")
+				if hasFormat {
+					found := false
+					for _, a := range c.Common().Args {
+						if f, isK := su.ConstString(a); isK {
+							verbs, found = fmtVerbs(f), true
+						}
+					}
+					if !found {
+						continue
+					}
+				}
+				for _, a := range c.Common().Args {
+					elems, ok := variadicElems(a)
+					if !ok {
+						continue
+					}
+					for ei, e := range elems {
+						if hasFormat {
+							if ei >= len(verbs) || !(verbs[ei] == "v" || verbs[ei] == "s" || verbs[ei] == "q") {
+								continue
+							}
+						}
+						mi, isMI := e.(*ssa.MakeInterface)
+						if !isMI {
+							continue
+						}
+						v := mi.X
+						// the receiver itself, or a copy of a value receiver loaded from its local
+						self := v == ssa.Value(fn.Params[0])
+						if ld, isLd := v.(*ssa.UnOp); isLd && ld.Op == token.MUL {
+							if al, isAl := ld.X.(*ssa.Alloc); isAl {
+								for _, ref := range *al.Referrers() {
+									if st, isSt := ref.(*ssa.Store); isSt && st.Addr == ssa.Value(al) && st.Val == ssa.Value(fn.Params[0]) {
+										self = true
+									}
+								}
+							}
+						}
+						if self {
+							nFmt++
+							r.Add(rule, fmt.Sprintf("self-format #%d in %s", nFmt, load.FuncName(fn)), p.Pos(c.Pos()), "receiver handed to fmt inside its own "+fn.Name()+" method").Fail(load.FuncName(fn) + " passes its own receiver to " + cal.Name() + ": fmt prints a value that has an " + fn.Name() + "() method by calling it, so the method calls itself without end - a stack overflow, which no recover can stop")
+						}
+					}
+				}
+			}
+		}
 		hs := loopHeaders(fn)
 		for hi, h := range hs {
 			key := fmt.Sprintf("loop #%d in %s", hi+1, load.FuncName(fn))
@@ -414,4 +473,36 @@ func followsFamilyLink(vs []ssa.Value, depth int) string {
 		}
 	}
 	return ""
+}
+
+// fmtVerbs lists, per operand, the verb a format applies to it ("#v" for %#v; "*" operands are listed as "*").
+func fmtVerbs(f string) []string {
+	var out []string
+	for i := 0; i < len(f); i++ {
+		if f[i] != '%' {
+			continue
+		}
+		i++
+		if i < len(f) && f[i] == '%' {
+			continue
+		}
+		sharp := false
+		for i < len(f) && strings.ContainsRune("#+- 0123456789.*[]", rune(f[i])) {
+			if f[i] == '#' {
+				sharp = true
+			}
+			if f[i] == '*' {
+				out = append(out, "*")
+			}
+			i++
+		}
+		if i < len(f) {
+			v := string(f[i])
+			if sharp {
+				v = "#" + v
+			}
+			out = append(out, v)
+		}
+	}
+	return out
 }
